@@ -1352,3 +1352,124 @@ Proof.
   split; [exact ox_quiet|].
   eexists. split; [vm_compute; reflexivity|vm_compute; reflexivity].
 Qed.
+
+(* ================================================================================================ *)
+(* H. exception (i), sharpened: only the /otp/add of a browser whose session names U                  *)
+(* ================================================================================================ *)
+(* /otp/add touches the record of the session's user and of nobody else (the footprint logic J of
+   Proofs/Footprint.v with the one-account footprint "the session's uid") *)
+Lemma serve_otp_add_frame E h r h' U :
+  otp_add_route (e_req E) -> filed (h_st h) -> h_cuser h = None -> h_cpid h = None ->
+  serve E h = (r, h') -> U <> aget k_uid (e_sess E) ->
+  ulookup U (s_users (h_st h')) = ulookup U (s_users (h_st h)).
+Proof.
+  intros [R M] Fl Cu Cp Eq NU. unfold serve, route_table in Eq. rewrite R, M in Eq. cbn beta iota in Eq.
+  unfold when, get_post in Eq. rewrite M in Eq. destruct (has_mod (e_cfg E) MOtp).
+  2:{ unfold write_resp, modify in Eq. inversion Eq; subst. destruct (h_out h); reflexivity. }
+  apply error_handler_tail in Eq as (r0 & h0 & Eq & _ & S2). rewrite S2.
+  set (F := fun q : bytes => q = aget k_uid (e_sess E)).
+  assert (Huid : bempty (aget k_uid (e_sess E)) = false -> F (aget k_uid (e_sess E))) by (intros _; reflexivity).
+  pose proof (J_behind F E Huid false _ (J_otp_add_post F E Huid)) as HJ.
+  assert (W : wf F h).
+  { split; [exact Fl|]. split; [intros cu Hc; congruence|intros p Hp; congruence]. }
+  assert (S : sim F h h) by (split; [reflexivity|intros p _; auto]).
+  destruct (HJ h h r0 h0 r0 h0 W W S Eq Eq) as (_ & _ & _ & _ & Fr & _).
+  exact (proj1 (Fr U NU)).
+Qed.
+
+Definition otp_add_hits (C : crypto) (x U : bytes) (w : world) (a : action) (O : oracle) : Prop :=
+  match a with
+  | AReq req => q_route req = ROtpAdd /\ q_meth req = POST /\
+                aget k_uid (jar_get (q_browser req) (w_sess w)) = U /\
+                exists c, In c (fresh_cands 16 (o_fresh O)) /\ sha C (otp_format c) = sha C x
+  | _ => False
+  end.
+
+Lemma step_hits_le_sharp C cfg w a O U x :
+  filed (w_st w) -> ~ seeds U a -> ~ otp_add_hits C x U w a O ->
+  (otp_hits C x U (w_st (fst (step C cfg w a O))) <= otp_hits C x U (w_st w))%nat.
+Proof.
+  intros F NS NA.
+  assert (NOT : ~ otp_add_may_hit C x a O -> (otp_hits C x U (w_st (fst (step C cfg w a O))) <= otp_hits C x U (w_st w))%nat)
+    by (apply step_hits_le; assumption).
+  destruct a as [req|p|p|p pw|p|su rm|b k v|ck b j]; try (apply NOT; intros []).
+  destruct (bytes_dec U (aget k_uid (jar_get (q_browser req) (w_sess w)))) as [EU|NU].
+  - apply NOT. intros (R & M & Hc). apply NA. cbn [otp_add_hits]. auto.
+  - destruct (q_route req) eqn:R; try (apply NOT; intros (R' & _); rewrite R in R'; discriminate R').
+    destruct (q_meth req) eqn:M; try (apply NOT; intros (_ & M' & _); rewrite M in M'; discriminate M').
+    destruct (step_req_jars C cfg w req O) as (r & h & Sv & St & _).
+    unfold otp_hits. rewrite St.
+    rewrite (serve_otp_add_frame _ (init_hst (w_st w) O) r h U (conj R M) F eq_refl eq_refl Sv NU). cbn [init_hst h_st]. lia.
+Qed.
+
+Lemma step_absent_preserved_sharp C cfg w a O U x :
+  filed (w_st w) -> otp_absent C x U (w_st w) -> ~ seeds U a -> ~ otp_add_hits C x U w a O ->
+  otp_absent C x U (w_st (fst (step C cfg w a O))).
+Proof.
+  intros F Ab NS NA. apply otp_absent_hits. apply otp_absent_hits in Ab.
+  pose proof (step_hits_le_sharp C cfg w a O U x F NS NA). lia.
+Qed.
+Lemma step_unique_preserved_sharp C cfg w a O U x :
+  filed (w_st w) -> otp_unique C x U (w_st w) -> ~ seeds U a -> ~ otp_add_hits C x U w a O ->
+  otp_unique C x U (w_st (fst (step C cfg w a O))).
+Proof.
+  intros F Ab NS NA. apply otp_unique_hits. apply otp_unique_hits in Ab.
+  pose proof (step_hits_le_sharp C cfg w a O U x F NS NA). lia.
+Qed.
+
+(* the history theorem with the sharpened exception, which looks at the world each step starts from *)
+Definition otp_quiet_sharp (C : crypto) (cfg : config) (U x : bytes) (w : world) (l : list (action * oracle)) : Prop :=
+  forall p a O s, l = p ++ (a, O) :: s -> ~ seeds U a /\ ~ otp_add_hits C x U (fst (run C cfg w p)) a O.
+
+Lemma otp_quiet_sharp_of_quiet C cfg U x w l : otp_quiet C U x l -> otp_quiet_sharp C cfg U x w l.
+Proof.
+  intros Q p a O s ->. apply Forall_mid in Q. cbn [fst snd] in Q. destruct Q as [N1 N2]. split; [exact N1|].
+  intros H. apply N2. destruct a; try contradiction. destruct H as (R & M & _ & Hc). cbn. auto.
+Qed.
+
+Lemma run_hits_le_sharp C cfg U x : forall l w,
+  filed (w_st w) -> otp_quiet_sharp C cfg U x w l ->
+  (otp_hits C x U (w_st (fst (run C cfg w l))) <= otp_hits C x U (w_st w))%nat.
+Proof.
+  induction l as [|[a O] l IH]; intros w F Q; [cbn; lia|]. rewrite run_cons_fst.
+  destruct (Q [] a O l eq_refl) as [N1 N2]. cbn [run fst] in N2.
+  pose proof (step_hits_le_sharp C cfg w a O U x F N1 N2).
+  assert (Q' : otp_quiet_sharp C cfg U x (fst (step C cfg w a O)) l).
+  { intros p a' O' s E. specialize (Q ((a, O) :: p) a' O' s (f_equal (cons (a, O)) E)).
+    change (((a, O) :: p)) with ([(a, O)] ++ p) in Q. rewrite run_app_fst in Q.
+    replace (fst (run C cfg w [(a, O)])) with (fst (step C cfg w a O)) in Q; [exact Q|].
+    symmetry. apply (run_snoc_fst C cfg w [] a O). }
+  pose proof (IH _ (step_keeps_filed C cfg w a O F) Q'). lia.
+Qed.
+
+Lemma otp_never_again_sharp_lemma C cfg w0 l1 req1 O1 l2 req2 O2 U x :
+  filed (w_st w0) ->
+  otp_login_req cfg req1 U x -> otp_login_req cfg req2 U x ->
+  otp_unique C x U (w_st (fst (run C cfg w0 l1))) ->
+  accepted_for U (fst (run C cfg w0 l1)) (fst (step C cfg (fst (run C cfg w0 l1)) (AReq req1) O1)) ->
+  otp_quiet_sharp C cfg U x (fst (step C cfg (fst (run C cfg w0 l1)) (AReq req1) O1)) l2 ->
+  sess_untouched (fst (run C cfg w0 (l1 ++ (AReq req1, O1) :: l2)))
+                 (fst (run C cfg w0 (l1 ++ (AReq req1, O1) :: l2 ++ [(AReq req2, O2)]))) /\
+  refused_for U (fst (run C cfg w0 (l1 ++ (AReq req1, O1) :: l2)))
+                (fst (run C cfg w0 (l1 ++ (AReq req1, O1) :: l2 ++ [(AReq req2, O2)]))) /\
+  otp_absent C x U (w_st (fst (run C cfg w0 (l1 ++ (AReq req1, O1) :: l2)))).
+Proof.
+  intros F0 L1 L2 Un Acc Q.
+  set (w1 := fst (run C cfg w0 l1)) in *.
+  assert (F1 : filed (w_st w1)) by (apply run_keeps_filed; exact F0).
+  set (w1' := fst (step C cfg w1 (AReq req1) O1)) in *.
+  assert (F1' : filed (w_st w1')) by (apply step_keeps_filed; exact F1).
+  assert (A1 : otp_absent C x U (w_st w1')).
+  { apply consumption_establishes_absent; auto. apply (accepted_touched U). exact Acc. }
+  assert (E2 : fst (run C cfg w0 (l1 ++ (AReq req1, O1) :: l2)) = fst (run C cfg w1' l2)).
+  { rewrite run_app_fst, run_cons_fst. reflexivity. }
+  assert (E3 : fst (run C cfg w0 (l1 ++ (AReq req1, O1) :: l2 ++ [(AReq req2, O2)])) =
+               fst (step C cfg (fst (run C cfg w1' l2)) (AReq req2) O2)).
+  { rewrite run_app_fst, run_cons_fst, run_snoc_fst. reflexivity. }
+  rewrite E2, E3.
+  assert (A2 : otp_absent C x U (w_st (fst (run C cfg w1' l2)))).
+  { apply otp_absent_hits. apply otp_absent_hits in A1. pose proof (run_hits_le_sharp C cfg U x l2 w1' F1' Q). lia. }
+  assert (U2 : sess_untouched (fst (run C cfg w1' l2)) (fst (step C cfg (fst (run C cfg w1' l2)) (AReq req2) O2))).
+  { apply (absent_otp_refused C cfg _ req2 O2 U x); auto. apply run_keeps_filed. exact F1'. }
+  split; [exact U2|]. split; [apply untouched_refused; exact U2|exact A2].
+Qed.
